@@ -73,12 +73,12 @@ const (
 func okErr(err error) string { return b2s(err == nil) }
 
 // guarded runs one line with a deadline, so that a mutant that loops costs seconds, not the stream's timeout: the
-// line is answered `hang`, and after three hangs the rest of the stream is skipped (the spinning goroutines cannot be
+// line is answered `hang`, and after two hangs the rest of the stream is skipped (the spinning goroutines cannot be
 // stopped).  Panics are turned into the token `panic` here because hx.Main's recover does not see other goroutines.
 var hangs atomic.Int32
 
 func guarded(f func() string) string {
-	if hangs.Load() >= 3 {
+	if hangs.Load() >= 2 {
 		return "skipped-after-crash"
 	}
 	ch := make(chan string, 1)
@@ -92,7 +92,7 @@ func guarded(f func() string) string {
 	}
 }
 
-const lineDeadline = 20 * time.Second
+const lineDeadline = 4 * time.Second
 
 type conv struct{}
 
